@@ -1,13 +1,24 @@
 import Driver.Common
 import Sourmash.Model.Select
 import Sourmash.Spec.Select
+import Sourmash.Model.Csv
+import Sourmash.Model.Manifest
 /-! C11 driver: selection on signatures, manifests, collections.
 Model column = the functions of `Model/Select.lean` (what the theorems are about);
-spec column = filter by `satisfies` + `deliver` from `Spec/Select.lean`, on positions. -/
+spec column = filter by `satisfies` + `deliver` from `Spec/Select.lean`, on positions.
+
+Cases with an `mcsv` line: the manifest is what `Manifest::from_reader` (model: `Model/Manifest.lean`
+over `Model/Csv.lean`) makes of a CSV document; the rows keep the spelling of the document
+(`Record.moltype` is the raw column, `Record.mol?` parses it the way `Record::moltype()` does).  The
+spec column then says what the property says — *selection on the manifest agrees with selection on
+the signatures it describes*: row `p` is retained iff the sketch it describes (`map[p]`-th of the
+case) satisfies the request; nothing is said when a row describes no sketch. -/
 open Driver Select Scaled
 
 structure St where
   sigs : List Sig := []
+  /-- rows read by `mcsv`, and for each row the flat index of the sketch it describes -/
+  csv : Option (List Record × List Nat) := none
 
 def seed0 : Nat := 1000
 
@@ -84,7 +95,45 @@ def rowsSpec (sel : Selection) (orig : List Record) : String :=
 def md5of (_ : Sketch) : Select.Bytes := []
 
 def allRows (st : St) : List Record :=
-  (st.sigs.zipIdx.map (fun (s, i) => (fromSig md5of s (natBytes i)).getD [])).flatten
+  match st.csv with
+  | some (rows, _) => rows
+  | none => (st.sigs.zipIdx.map (fun (s, i) => (fromSig md5of s (natBytes i)).getD [])).flatten
+
+/-- `Collection::from_sigs`, or `Collection::new(manifest read by mcsv, MemStorage of the signatures)` -/
+def collOf (st : St) : Option Collection :=
+  match Collection.fromSigs md5of st.sigs with
+  | none => none
+  | some c =>
+    match st.csv with
+    | some (rows, _) => some { c with manifest := rows }
+    | none => some c
+
+/-- every sketch of the case with the position of its signature, in collection order -/
+def flatSketches (st : St) : List (Nat × Sketch) :=
+  (st.sigs.zipIdx.map (fun (sg, i) => sg.sketches.map (fun s => (i, s)))).flatten
+
+/-- for every manifest row of the case, the sketch it describes (`none` = describes no sketch) -/
+def described (st : St) : List (Option (Nat × Sketch)) :=
+  let flat := flatSketches st
+  match st.csv with
+  | some (_, map) => map.map (fun j => flat[j]?)
+  | none => flat.map some
+
+/-- spec: the rows whose sketch satisfies the request, with their positions -/
+def rowsSpecOf (st : St) (sel : Selection) : String :=
+  let orig := allRows st
+  let d := described st
+  if d.any Option.isNone || d.length != orig.length then "-" else
+  let pos := retainedFrom (fun (o : Option (Nat × Sketch)) =>
+    match o with | some (_, s) => satisfies sel s.described | none => false) 0 d
+  if pos.isEmpty then "-" else
+  ";".intercalate (pos.map (fun p => rowString (toString p) (orig[p]!)))
+
+def showRead (l : List Record) : String :=
+  if l.isEmpty then "-" else
+  ";".intercalate (l.map (fun r => ":".intercalate [bytesString r.internalLocation, toString r.ksize,
+    hex r.moltype, toString r.num, toString r.scaled, (if r.withAbundance then "1" else "0"),
+    toString r.nHashes]))
 
 def stepC11 (st : St) (ws : List String) : St × Resp :=
   match ws with
@@ -101,6 +150,10 @@ def stepC11 (st : St) (ws : List String) : St × Resp :=
           seed := seed0 + sg.sketches.length, mins := natList mins, abunds := natList abunds }
       let sg' := { sg with sketches := sg.sketches ++ [sk] }
       ({ st with sigs := (sg' :: before).reverse }, { model := descr sk })
+  | ["mcsv", doc, map] =>
+    (match Manifest.fromReader (unhex doc) with
+     | some rows => ({ st with csv := some (rows, natList map) }, { model := showRead rows })
+     | none => (st, { model := "err CsvError" }))
   | op :: rest =>
     if op == "ssel" || op == "stsel" then
       match rest with
@@ -114,20 +167,27 @@ def stepC11 (st : St) (ws : List String) : St × Resp :=
       let sel := parseSel rest
       let orig := allRows st
       let model :=
-        if op == "msel" then rowsString orig (manifestSelect sel orig)
-        else if op == "msel2" then rowsString orig (manifestSelect sel (manifestSelect sel orig))
+        if op == "msel" then
+          match manifestSelect? sel orig with
+          | some kept => rowsString orig kept
+          | none => "PANIC"
+        else if op == "msel2" then
+          match (manifestSelect? sel orig).bind (manifestSelect? sel) with
+          | some kept => rowsString orig kept
+          | none => "PANIC"
         else
-          match Collection.fromSigs md5of st.sigs with
+          match collOf st with
           | none => "PANIC"
           | some c =>
-            if op == "csel" then rowsString c.manifest (c.select sel).manifest
+            if (manifestSelect? sel c.manifest).isNone then "PANIC"
+            else if op == "csel" then rowsString c.manifest (c.select sel).manifest
             else match linearSelect sel c with
               | .ok c' => rowsString c.manifest c'.manifest
               | .error e => "err " ++ errName e
-      (st, { model := model, spec := rowsSpec sel orig })
+      (st, { model := model, spec := if st.csv.isSome then rowsSpecOf st sel else rowsSpec sel orig })
     else if op == "cset" then
       let sel := parseSel rest
-      match Collection.fromSigs md5of st.sigs with
+      match collOf st with
       | none => (st, { model := "PANIC" })
       | some c =>
         let c' := c.select sel
@@ -136,7 +196,7 @@ def stepC11 (st : St) (ws : List String) : St × Resp :=
                         | .error e => "err " ++ errName e })
     else if op == "cload" then
       let sel := parseSel rest
-      match Collection.fromSigs md5of st.sigs with
+      match collOf st with
       | none => (st, { model := "PANIC" })
       | some c =>
         let c' := c.select sel
@@ -152,11 +212,14 @@ def stepC11 (st : St) (ws : List String) : St × Resp :=
         let model :=
           if outs.any Option.isNone then "PANIC"
           else if outs.isEmpty then "-" else "|".intercalate (outs.filterMap id)
-        -- spec: for every sketch that satisfies the request, in collection order, that one sketch delivered
-        let specs := (st.sigs.zipIdx.map (fun (sg, i) =>
-          (sg.sketches.filter (fun s => satisfies sel s.described)).map (fun s =>
-            toString i ++ "=" ++ descr (deliver sel s)))).flatten
-        (st, { model := model, spec := if specs.isEmpty then "-" else "|".intercalate specs })
+        -- spec: for every row whose sketch satisfies the request, in manifest order, that one sketch delivered
+        let d := described st
+        let specs := d.filterMap (fun o =>
+          match o with
+          | some (i, s) => if satisfies sel s.described then some (toString i ++ "=" ++ descr (deliver sel s)) else none
+          | none => none)
+        (st, { model := model,
+               spec := if d.any Option.isNone then "-" else if specs.isEmpty then "-" else "|".intercalate specs })
     else if op == "agree" then
       match rest with
       | i :: selw =>
